@@ -1,9 +1,9 @@
 SPECIFICATION Spec
 CONSTANTS
-  MaxN = 4
-  MaxScript = 3
-  MaxPScript = 2
-  MaxKScript = 1
+  MaxN = 6
+  MaxScript = 5
+  MaxPScript = 3
+  MaxKScript = 2
 INVARIANT CaseInv
 CONSTRAINT EmitCases
 CHECK_DEADLOCK FALSE
